@@ -105,11 +105,21 @@ var (
 	currentRun atomic.Pointer[run]
 )
 
+// fmtSendBlocked: some goroutine is blocked in decor.WC.Format handing in its width (a channel send).
+func fmtSendBlocked(gl []string) bool {
+	for _, g := range gl {
+		if i := strings.Index(g, "]: "); i >= 0 && strings.HasPrefix(g[i+3:], "/decor.WC.Format") && strings.HasPrefix(g, "[chan send") {
+			return true
+		}
+	}
+	return false
+}
+
 // spinning is called by the watchdog, from outside the bubble, when nothing has been recorded for a long real time.
 func (r *run) spinning() {
 	gl := libGoroutines()
 	r.rec(Event{"ev": "hang", "kind": "spinning", "pending": r.pendingCalls(), "parked": labels(r.snapshot()), "goroutines": gl,
-		"infmt": strings.Contains(strings.Join(gl, " "), "WC.Format"),
+		"infmt": fmtSendBlocked(gl),
 		"wpend": strings.Contains(strings.Join(r.pendingCalls(), " "), ":write:")})
 	r.rec(Event{"ev": "end"})
 }
@@ -1425,7 +1435,7 @@ func RunScenario(t *testing.T, sc *Scenario) (events []Event, fatal string) {
 			if h != "" {
 				gl := libGoroutines()
 				r.rec(Event{"ev": "hang", "kind": h, "pending": r.pendingCalls(), "parked": labels(r.snapshot()), "goroutines": gl,
-					"infmt": strings.Contains(strings.Join(gl, " "), "WC.Format"),
+					"infmt": fmtSendBlocked(gl),
 					"wpend": strings.Contains(strings.Join(r.pendingCalls(), " "), ":write:")})
 				r.rec(Event{"ev": "end"})
 				// the bubble cannot be left (a livelocked container keeps its fake clock
@@ -1460,6 +1470,9 @@ func RunScenario(t *testing.T, sc *Scenario) (events []Event, fatal string) {
 					allfmt = false
 				}
 			}
+			// (and one of them has not even handed in its width: that is what the recorded finding F5 leaves behind - a distributor
+			// that gave up while collecting; goroutines that all wait for the column's width to come back are something else)
+			allfmt = allfmt && fmtSendBlocked(leaks)
 			r.rec(Event{"ev": "quiesce", "leaks": leaks, "nleaks": len(leaks), "notified": nvals, "allfmt": allfmt})
 			if r.cancel != nil {
 				r.cancel()
